@@ -291,7 +291,7 @@ func init() {
 		ID:   "C17",
 		Rule: "Harness in harness/json/c17.go: JSON documents from 4 templates whose string contents (plain characters and escape sequences) and comment contents are symbolic bytes; comments placed in forked slots between tokens; forked read segmentation. The symbolic run asserts that the reader's output is the document with its comments removed; every counterexample is replayed natively through the property's real oracle (encoding/json on the undecorated text vs Unmarshal through the reader) and only a difference there is reported.",
 		Assumptions: append([]string{
-			"string characters are printable ASCII other than quote and backslash, or an escape \\X with X in \"\\/bfnrt; comment bodies are bytes >= 0x20 without their terminator",
+			"string characters are printable ASCII other than quote and backslash, or an escape \\X with X in \"\\/bfnrt; comment bodies are visible bytes (> 0x20) without their terminator",
 			"bufio.Scanner, bytes.Buffer and io.ReadAll are interpreted from source; bytes.Index is an engine intrinsic with the obvious semantics",
 			"documents longer than bufio.Scanner's 64 KiB token limit and other marker tables of NewCommentReader are outside the claim",
 		}, commonAssumptions...),
